@@ -11,6 +11,7 @@ import CasModel.Sim
 import CasModel.Conc
 import CasModel.Fault
 import CasModel.OrphanOps
+import CasModel.Lock
 /-
   Model driver: one request per input line, one response line per request.
   The functions called here are the ones the theorems are about; this file only parses and prints.
@@ -57,6 +58,9 @@ structure DState where
   kind : KeyKind := .bytes
   idx : IndexState Bytes := {}
   w : World := {}
+  /-- lock-protocol slice `c11p`: the kernel's lock table and the harness's names for descriptions -/
+  lk : Lock.State := {}
+  lkSlots : List (String × Nat) := []
 
 def showIdxPanic : IdxPanic → String
   | .decrementZero => "decrementZero" | .hashNotFound => "hashNotFound"
@@ -677,8 +681,52 @@ def storeStep (w : World) (toks : List String) : Option (World × String) :=
       (faultStep w 1000000000 toks).map (fun (w', r) => (w', stripFault r))
     else storeStepNormal w toks
 
+/-- slice `c11p`: calls of `open`, clones, drops and process deaths by several processes -/
+def lkStep (st : DState) : List String → Option (DState × String)
+  | ["reset"] => some ({ st with lk := {}, lkSlots := [] }, "ok")
+  | ["open", slot, p, mode] => do
+    let p ← p.toNat?
+    let (good, stats) ← (match mode with
+      | "good0" => some (true, false)
+      | "good1" => some (true, true)
+      | "bad" => some (false, false)
+      | _ => none)
+    let o := st.lk.next
+    let (s', out) := Lock.openCall st.lk p good stats
+    match out with
+    | .granted => some ({ st with lk := s', lkSlots := (slot, o) :: st.lkSlots.filter (fun x => x.1 ≠ slot) }, "granted")
+    | .refused => some ({ st with lk := s' }, "refused")
+    | .ok => some ({ st with lk := s' }, "failed")
+    | _ => none
+  | ["clone", slot, _p] =>
+    match st.lkSlots.lookup slot with
+    | some o =>
+      let s' := (Lock.step st.lk (.clone o)).1
+      some ({ st with lk := s' }, match s'.refs o with | some n => s!"refs={n}" | none => "none")
+    | none => some (st, "none")
+  | ["drop", slot, _p, _kind] =>
+    match st.lkSlots.lookup slot with
+    | some o =>
+      let (s', out) := Lock.step st.lk (.drop o)
+      some ({ st with lk := s' }, match s'.refs o with
+        | some n => s!"refs={n}"
+        | none => if out = .ok then "refs=0" else "none")
+    | none => some (st, "none")
+  | ["die", p] => do
+    let p ← p.toNat?
+    some ({ st with lk := (Lock.step st.lk (.die p)).1 }, "ok")
+  | ["live"] =>
+    let names := (st.lkSlots.filter (fun x => st.lk.liveList.contains x.2)).map (·.1)
+    let sorted := (names.toArray.qsort (fun a b => a < b)).toList
+    some (st, if sorted.isEmpty then "-" else ",".intercalate sorted)
+  | _ => none
+
 def step (st : DState) (line : String) : DState × String :=
   match line.trimAscii.toString.splitOn " " with
+  | "lk" :: rest =>
+    match lkStep st rest with
+    | some r => r
+    | none => (st, "bad-op")
   | ["blake3", x] =>
     match parseHex x with
     | some bs => (st, toHexString (H bs))
